@@ -5,6 +5,7 @@ import (
 	"fmt"
 	"os"
 	"path/filepath"
+	"regexp"
 	"strings"
 
 	"pgregory.net/rapid"
@@ -48,6 +49,7 @@ func rtGenConfig() model.GenConfig {
 	cfg.Comments = false
 	cfg.KindPairPct = 35
 	cfg.AliasKeyPct = 30
+	cfg.BulkStreamPct = 20
 	cfg.RootNamespace = "Mdl" // "Main" would become the C++ namespace `main`, clashing with the driver's entry point
 	return cfg
 }
@@ -179,7 +181,7 @@ func describeRun(b *sut.Built, run RTRun) string {
 	for i, s := range run.Steps {
 		name := proto.Fields[i].Name
 		if s.Stream {
-			fmt.Fprintf(&sb, "\n  %s = stream%v %s", name, s.Blocks, core.Trunc((&value.Value{K: value.Seq, Items: s.Items}).String(), 400))
+			fmt.Fprintf(&sb, "\n  %s = stream(%d items)%s %s", name, len(s.Items), core.Trunc(fmt.Sprint(s.Blocks), 120), core.Trunc((&value.Value{K: value.Seq, Items: s.Items}).String(), 400))
 		} else {
 			fmt.Fprintf(&sb, "\n  %s = %s", name, core.Trunc(s.Value.String(), 400))
 		}
@@ -219,16 +221,69 @@ func applyRuntimeExclusions(cfg *model.GenConfig) {
 
 // finding id -> generator switches
 var runtimeSwitches = map[string][]string{
-	"C08-cpp-vector-of-bool":                {"vector-of-bool"},
-	"C08-python-generic-identity-alias":     {"generic-identity-alias"},
-	"C01-python-nested-optional-collapses":  {"nested-optional-via-alias"},
-	"C02-python-ndjson-struct-array-dtype":  {"array-of-struct"},
-	"C08-python-union-as-generic-arg":       {"union-as-generic-arg"},
-	"C02-flags-number-union-untagged":       {"union-flags-with-number"},
-	"C02-generic-union-param-case-untagged": {"union-with-param-case"},
-	"C08-cpp-map-key-without-hash":          {"map-key-chrono"},
-	"C01-python-array-of-vector":            {"array-of-vector"},
-	"C08-python-union-nested-in-alias":      {"union-nested-in-alias"},
+	"C08-cpp-vector-of-bool":                    {"vector-of-bool"},
+	"C08-python-generic-identity-alias":         {"generic-identity-alias"},
+	"C01-python-nested-optional-collapses":      {"nested-optional-via-alias"},
+	"C02-python-ndjson-struct-array-dtype":      {"array-of-struct"},
+	"C08-python-union-as-generic-arg":           {"union-as-generic-arg"},
+	"C02-flags-number-union-untagged":           {"union-flags-with-number"},
+	"C02-generic-union-param-case-untagged":     {"union-with-param-case"},
+	"C08-cpp-map-key-without-hash":              {"map-key-chrono"},
+	"C01-python-array-of-vector":                {"array-of-vector"},
+	"C08-python-union-nested-in-alias":          {"union-nested-in-alias"},
+	"C02-cpp-ndjson-union-tags-by-variant-type": {"union-tags-by-variant-type"},
+}
+
+func (c RTCase) rtPkg() *model.Package { return c.Pkg }
+
+var tagMismatchRe = regexp.MustCompile(`expected tag "([^"]+)", got \{"([^"]+)":`)
+
+// rtKnown assigns run-time failures to open findings by narrow signature (used by report()).
+func rtKnown(f *Fail, pkg *model.Package) string {
+	if pkg == nil {
+		return ""
+	}
+	// C++ NDJSON: the tags of another union with the same C++ variant type are written
+	if m := tagMismatchRe.FindStringSubmatch(f.Msg); m != nil && m[1] != m[2] {
+		want, got := m[1], m[2]
+		env := model.NewEnv(pkg)
+		type ut struct {
+			n   int
+			idx int
+		}
+		var w, g []ut
+		for _, p := range pkg.AllPackages() {
+			for _, d := range p.Defs {
+				model.DefTypes(d, func(t *model.Type) {
+					model.Walk(t, func(u *model.Type) {
+						if u.Kind != model.KUnion {
+							return
+						}
+						for i := range u.Cases {
+							if u.Cases[i] == nil {
+								continue
+							}
+							switch ref.Tag(u, i) {
+							case want:
+								w = append(w, ut{len(u.Cases), i})
+							case got:
+								g = append(g, ut{len(u.Cases), i})
+							}
+						}
+					})
+				})
+			}
+		}
+		_ = env
+		for _, a := range w {
+			for _, b := range g {
+				if a == b {
+					return "C02-cpp-ndjson-union-tags-by-variant-type"
+				}
+			}
+		}
+	}
+	return ""
 }
 
 // valueOpts applies value-level exclusion switches of open findings.
@@ -240,4 +295,73 @@ func valueOpts(o value.GenOpts, ndjson bool) value.GenOpts {
 		o.DeclaredEnumsInArrays = true
 	}
 	return o
+}
+
+// repeatRuns repeats the items of one stream step of every run until the binary encoding of that step
+// reaches target bytes (streams that span several 64 KiB reader/writer buffers). The step is chosen by
+// preference: items holding arrays or vectors of fixed-width elements (bulk-copied, possibly without a copy),
+// then items holding fixed-width data at all, then any non-empty stream. The repeated step is re-partitioned
+// into blocks by a fixed pattern (phase selects one of two patterns).
+func repeatRuns(env *model.Env, pkg *model.Package, runs []RTRun, target int, phase int) []RTRun {
+	if target <= 1 {
+		return runs
+	}
+	isFixed := func(p string) bool {
+		return strings.HasPrefix(p, "float") || strings.HasPrefix(p, "complex") || p == "uint8" || p == "int8" || p == "bool"
+	}
+	var out []RTRun
+	for _, r := range runs {
+		nr := RTRun{Proto: r.Proto, Steps: append([]value.StepValues{}, r.Steps...)}
+		proto := pkg.Find(r.Proto)
+		pick, best := -1, 0
+		for i, st := range nr.Steps {
+			if !st.Stream || len(st.Items) == 0 {
+				continue
+			}
+			score := 1
+			env.WalkInstantiated(proto.Fields[i].Type.Elem, func(x *model.Type) {
+				switch {
+				case x.Kind == model.KPrim && (isFixed(x.Prim) || x.Prim == "string"):
+					if score < 2 {
+						score = 2
+					}
+				case (x.Kind == model.KArray || x.Kind == model.KVector) && x.Elem != nil:
+					if u := env.Underlying(x.Elem); u != nil && u.Kind == model.KPrim && isFixed(u.Prim) {
+						score = 3
+					}
+				}
+			})
+			if score > best {
+				pick, best = i, score
+			}
+		}
+		if pick >= 0 {
+			st := nr.Steps[pick]
+			w := &ref.Writer{}
+			for _, it := range st.Items {
+				ref.EncodeValue(w, env, proto.Fields[pick].Type.Elem, it)
+			}
+			k := target/(len(w.Buf)+1) + 1
+			if len(st.Items)*k > 15000 {
+				k = 15000 / len(st.Items)
+			}
+			var items []*value.Value
+			for j := 0; j < k; j++ {
+				items = append(items, st.Items...)
+			}
+			ns := value.StepValues{Stream: true, Items: items}
+			pattern := [][]int{{7, 1, 64, 1000, 3, 250}, {1, 2, 500, 33, 4096}}[phase%2]
+			for left, j := len(items), 0; left > 0; j++ {
+				b := pattern[j%len(pattern)]
+				if b > left {
+					b = left
+				}
+				ns.Blocks = append(ns.Blocks, b)
+				left -= b
+			}
+			nr.Steps[pick] = ns
+		}
+		out = append(out, nr)
+	}
+	return out
 }
